@@ -280,18 +280,31 @@ class EngineCheck(PropertyCheck):
             items = [(0, [rng.choice(derived) for _ in range(rng.below(3))]) for _ in range(rng.below(8))]
             return {"op": "B", "key": tgt, "cancel_at": cancel_at, "mode": 0, "items": items}
 
+        cur = {o["slot"]: o["val"] for o in ops}
+
         def touch():
             nonlocal stamp
             for _ in range(1 + rng.below(3)):
                 if inputs:
                     stamp += 1
-                    ops.append({"op": "M", "slot": rng.choice(inputs), "val": stamp})
+                    k = rng.choice(inputs)
+                    cur[k] = stamp
+                    ops.append({"op": "M", "slot": k, "val": stamp})
         ops.append(build(0))
         for _ in range(1 + rng.below(3)):
+            at_last_complete = dict(cur)
             touch()
             ops.append(build(2 + rng.below(30)))
-            if rng.chance(2, 3):
+            c = rng.below(3)
+            if c == 0:
                 touch()
+            elif c == 1:
+                # the edits are taken back: rows the failed build did not overwrite are valid again, while the engine that
+                # lived through it holds the rules that were in flight as never built
+                for k in sorted(cur):
+                    if cur[k] != at_last_complete[k]:
+                        cur[k] = at_last_complete[k]
+                        ops.append({"op": "M", "slot": k, "val": cur[k]})
             ops.append(build(0))
         return ops
 
@@ -310,7 +323,11 @@ class EngineCheck(PropertyCheck):
                                 allow_restart=False)
             if i % 3 == 1:
                 # directed: one target, and between two complete builds of it a build that fails (cancelled early
-                # or late) with inputs changing on either side — what a failed build persists matters only here
+                # or late) with inputs changing on either side — what a failed build persists matters only here.
+                # Some INPUT rules complete late (deferred), so that an input can be in flight when the build is cancelled.
+                for k in rules:
+                    if rules[k].kind == 0 and rng.chance(1, 2):
+                        rules[k].deferred = 1
                 ops = self.failed_build_sandwich(rng, rules)
             # every third history runs on the real SQLite database (both variants), the others on the observing one
             sq = (i % 3 == 2)
@@ -338,7 +355,7 @@ class EngineCheck(PropertyCheck):
                     failed = any(e[0] in ("X", "CY", "ER") for e in ev)
                     out.append((r, failed, sorted(int(e[1]) for e in ev if e[0] == "T")))
             return out
-        compared = same_exec = 0
+        compared = same_exec = after_failed = 0
         for c1, c2, a, b in zip(single, split, h1, h2):
             if a is None or b is None:
                 continue
@@ -353,15 +370,58 @@ class EngineCheck(PropertyCheck):
                         "what": "build %d of a history returns %s in a single engine and %s when the engine is restarted at every build boundary" % (i, x[0], y[0]),
                         "kind": "restart-changes-result", "input": {"ops": c1.harness_lines(), "ops_split": c2.harness_lines()}})
                 elif clean:
+                    # (after a failed or cancelled build the two variants are no longer in comparable states: the cancellation
+                    # point is an event index, and a restarted engine prints other events; see the aligned variant below)
                     same_exec += 1
                     if x[2] != y[2]:
                         res.oracle_failures.append({
                             "what": "build %d of a history executes %s in a single engine and %s when the engine is restarted at every build boundary" % (i, x[2], y[2]),
-                            "kind": "restart-changes-executions", "input": {"ops": c1.harness_lines(), "ops_split": c2.harness_lines()}})
+                            "kind": "restart-changes-executions", "after_failed_build": False,
+                            "input": {"ops": c1.harness_lines(), "ops_split": c2.harness_lines()}})
+        # aligned variant: a restart inserted ONLY right after each build that failed or was cancelled in the single-engine run, so
+        # the failed build itself is identical in both variants and the next build meets the same database, once with the engine
+        # that lived through the failure and once with a new one
+        aligned, idx = [], []
+        for n, (c1, a) in enumerate(zip(single, h1)):
+            if a is None:
+                continue
+            bs = builds(a)
+            if not any(x[1] for x in bs[:-1]):
+                continue
+            ops2, bi = [], 0
+            for o in c1.ops:
+                ops2.append(copy.deepcopy(o))
+                if o["op"] == "B":
+                    if bs[bi][1]:
+                        ops2.append({"op": "E"})
+                    bi += 1
+            aligned.append(E.Case(c1.rules, ops2, sqlite=c1.sqlite))
+            idx.append(n)
+        h3, pr3 = E.run_harness(exe, aligned) if aligned else ([], [])
+        for n, c3, b in zip(idx, aligned, h3):
+            if b is None:
+                continue
+            prev_failed = False
+            for i, (x, y) in enumerate(zip(builds(h1[n]), builds(b))):
+                if prev_failed and not x[1] and not y[1]:
+                    after_failed += 1
+                    if x[0] != y[0]:
+                        res.oracle_failures.append({
+                            "what": "build %d, the one after a failed build, returns %s on the engine that lived through the failure and %s on a new engine over the same database" % (i, x[0], y[0]),
+                            "kind": "restart-changes-result", "after_failed_build": True, "input": {"ops": single[n].harness_lines(), "ops_split": c3.harness_lines()}})
+                    elif x[2] != y[2]:
+                        res.oracle_failures.append({
+                            "what": "build %d, the one after a failed build, executes %s on the engine that lived through the failure and %s on a new engine over the same database" % (i, x[2], y[2]),
+                            "kind": "restart-changes-executions", "after_failed_build": True,
+                            "living_engine_executes_superset": set(y[2]) <= set(x[2]),
+                            "input": {"ops": single[n].harness_lines(), "ops_split": c3.harness_lines()}})
+                if x != y:
+                    break      # from the first difference on the two variants are in different states
+                prev_failed = x[1]
         res.evaluations += compared
         res.distinct_nontrivial += same_exec
         res.distribution["restart_split"] = {"histories": n, "on_sqlite": sum(1 for c in single if c.sqlite), "builds_compared": compared,
-                                             "builds_with_executions_compared": same_exec}
+                                             "builds_with_executions_compared": same_exec, "of_which_after_a_failed_build": after_failed}
 
     def correspond(self, ctx, res):
         corp = self.corpus_cases()
